@@ -19,5 +19,4 @@ From Coq Require Import Floats.
 Corollary clip_gen_float : forall v lo hi, clip_gen_f v lo hi = clip PrimFloat.ltb v lo hi.
 Proof. exact (clip_gen_eq_model PrimFloat.ltb). Qed.
 
-Print Assumptions clip_gen_eq_model.
-Print Assumptions clip_gen_float.
+(* Print Assumptions of the theorems above is run by harness/core.py translated_obligations (qualified names, whitelist) *)
